@@ -261,8 +261,20 @@ fn neighbourhood(inner: Inner, centers: &[Val]) -> Vec<Val> {
             }
         }
         Inner::Str => {
-            let maxn = centers.iter().filter_map(|c| if let Val::U(n) = c { Some(*n as usize) } else { None }).max().unwrap_or(2);
-            for n in 0..=(maxn + 2) {
+            // lengths 0..=4 and the neighbourhood of every length bound (bounds above 300 are left to the runtime pool:
+            // literals of that size do not belong into generated source)
+            let mut lens: Vec<usize> = (0..=4).collect();
+            for c in centers {
+                if let Val::U(n) = c {
+                    let n = *n as usize;
+                    if n <= 300 {
+                        lens.extend([n.saturating_sub(1), n, n + 1, n + 2]);
+                    }
+                }
+            }
+            lens.sort();
+            lens.dedup();
+            for n in lens {
                 out.push(Val::S("a".repeat(n)));
                 out.push(Val::S("ß".repeat(n)));
             }
@@ -277,9 +289,9 @@ fn neighbourhood(inner: Inner, centers: &[Val]) -> Vec<Val> {
     out
 }
 
-pub const ALL_FORMS: [Form; 28] = [
+pub const ALL_FORMS: [Form; 29] = [
     Form::Lit, Form::Under, Form::IntForFloat, Form::Exp, Form::Suffix, Form::Const, Form::NegConst, Form::NegSpConst, Form::NegParen, Form::Paren, Form::Plus1, Form::OnePlus, Form::Minus1, Form::Shl, Form::AsCast, Form::TyExtreme, Form::FnCall, Form::Block, Form::NegPlus, Form::ModPath, Form::Mul2,
-    Form::IfExpr, Form::NotLit, Form::NotConst, Form::NegLitParen, Form::DoubleNeg, Form::ShadowMax, Form::ShadowMin,
+    Form::IfExpr, Form::NotLit, Form::NotConst, Form::NegLitParen, Form::DoubleNeg, Form::ShadowMax, Form::ShadowMin, Form::Shr,
 ];
 
 pub fn c02_cases(tier: Tier) -> Vec<Case> {
@@ -1504,6 +1516,18 @@ pub fn c03x_cases(_tier: Tier) -> Vec<Case> {
             "{{ std::panic::set_hook(Box::new(|_| {{}})); let d = std::panic::catch_unwind(|| <{name} as Default>::default().into_inner()).ok(); let _ = std::panic::take_hook(); let c = {ctor}; if d == c {{ \"consistent\".to_string() }} else {{ format!(\"INCONSISTENT: default() = {{:?}} (None = panic), constructor on the inner default = {{:?}} (None = Err)\", d, c) }} }}"
         );
         c.probes.push((code, "Default::default() vs constructor => consistent".to_string()));
+        cases.push(c);
+    }
+    // a sequence: one generic declaration, two instantiations whose defaults differ in validity. Whatever the
+    // first call did (caches, statics inside a generic fn are shared by all instantiations) the second must still be
+    // what the constructor says
+    {
+        let extra = "pub trait Unit { fn unit() -> Self; }\nimpl Unit for i32 { fn unit() -> Self { 1 } }\nimpl Unit for i64 { fn unit() -> Self { -1 } }";
+        let attr = "validate(predicate = |v| *v > T::default()), derive(Debug, Default), default = T::unit()";
+        let mut c = raw_case("decl", "either", "default-of-generic-instantiations-in-sequence", attr, "pub struct DxGen<T: Unit + Default + PartialOrd>(T);", extra);
+        c.text = format!("{extra} #[nutype({attr})] pub struct DxGen<T: Unit + Default + PartialOrd>(T);");
+        let code = "{ std::panic::set_hook(Box::new(|_| {})); let a = std::panic::catch_unwind(|| DxGen::<i32>::default().into_inner()).ok(); let b = std::panic::catch_unwind(|| DxGen::<i64>::default().into_inner()).ok(); let a2 = std::panic::catch_unwind(|| DxGen::<i32>::default().into_inner()).ok(); let _ = std::panic::take_hook(); format!(\"{:?} {:?} {:?}\", a, b, a2) }".to_string();
+        c.probes.push((code, "default::<i32>(), default::<i64>(), default::<i32>() => Some(1) None Some(1)".to_string()));
         cases.push(c);
     }
     // control: the catalogue crate itself must build
